@@ -3664,7 +3664,8 @@ func (lhs *Statement) mod(op opType, rhs *Statement) error {
 			if c == nil {
 				return fmt.Errorf("condition %d is not set", x.Type())
 			}
-			cs = append(cs[:i], cs[i+1:]...)
+			// cs shrinks as conditions are removed: i is a position in lhs.Conditions only
+			cs = slices.DeleteFunc(cs, func(y Condition) bool { return y.Type() == x.Type() })
 			if len(cs) == 0 {
 				cs = nil
 			}
@@ -3717,7 +3718,7 @@ func (lhs *Statement) mod(op opType, rhs *Statement) error {
 			if a == nil {
 				return fmt.Errorf("action %d is not set", x.Type())
 			}
-			as = append(as[:i], as[i+1:]...)
+			as = slices.DeleteFunc(as, func(y Action) bool { return y.Type() == x.Type() })
 			if len(as) == 0 {
 				as = nil
 			}
